@@ -2,9 +2,10 @@ SPECIFICATION FairSpec
 CONSTANTS
   OneShellFlag = TRUE
   MaxPre = 3
+  MaxHeld = 2
   Emit = TRUE
 INVARIANTS ClosedOnlyAfterFull OpenWhileNotFull NoHelpAfterGone ExitsWithSuccess StaysWhileShellAttached
-PROPERTIES ClosesAfterFull ShellUndisturbed ExitsAtNextLine
+PROPERTIES ClosesAfterFull ShellUndisturbed ExitsAtNextLine LateShellServed
 ACTION_CONSTRAINT EmitEdge
 VIEW View
 CHECK_DEADLOCK FALSE
